@@ -32,8 +32,8 @@ def run_driver(ctx, pkg, req, tag):
 
 def key_str(k, self_name, other_name):
     if k["kind"] == "name":
-        return {"self": self_name, "other": other_name, "unknown": "noSuchChecker", "": ""}[k["v"]]
-    return "#" + ("noSuchTag" if k["v"] == "unknown" else k["v"])
+        return {"self": self_name, "other": other_name, "unknown": "noSuchChecker", "": ""}.get(k["v"], k["v"])
+    return "#" + {"unknown": "noSuchTag", "self": self_name}.get(k["v"], k["v"])
 
 
 def is_default(lst):
